@@ -90,6 +90,21 @@ CLAIMS = {
              'operator core. Only the source-regeneration half of C04.',
         note='The step from depth-2 trees to all trees rests on the locality of parenthesisation in Python\'s expression grammar (assumption). External-node detection '
              '(PreTranslator), evaluation in the caller frame (extract_vars) and the decompiler are NOT covered.'),
+    'C11': dict(
+        text='Proof over symbolic maps (z3 arrays with arbitrary content, skolem key): SessionCache.update_simple_index / db_update_simple_index change the key index to '
+             'exactly old-removed / new -> obj with every other key unchanged, raise (and change nothing, record nothing) exactly when the new key is held by another object, '
+             're-establish the representation invariant, and record the exact undo entry; EntityMeta._get_from_identity_map_ on real entities returns the object '
+             'registered under pk itself (class refinement only towards a subclass) or registers the new object at exactly pk. Composite indexes (arity 2, 3) BOUNDED.',
+        note='The representation invariant (obj occurs in an index only under its current value) is a precondition; its preservation per function is proved, the induction '
+             'over whole histories is not claimed. SymDict = CPython dict semantics on z3 arrays (trusted encoding).'),
+    'C13': dict(
+        text='(1) Proof on the real Attribute.__set__ and Entity.set of a real loaded object whose unique index and composite index are symbolic maps with symbolic old / new key '
+             'values: the call raises exactly when a new key is held by another object, and then both maps, the object\'s values, status, write bits and save-queue position '
+             'equal the snapshot (the real undo closures run); on success the maps change exactly. (2) BOUNDED: 26 modification scenarios on a real session (assignment, set(), '
+             'creation, collection assign/add/remove/clear, one-to-one steal, delete with cascade and refusal) with every do/undo callee failing at every call position: the '
+             'whole session snapshot is restored on every raising path.',
+        note='One injected callee failure per path (not combinations); callee contract "raises => changed nothing" (proved for index functions in C11). Scenario set and model are fixed; '
+             'histories of several failing calls are not covered.'),
 }
 
 _NOT_BUILT = 'within reach of the technique per DESIGN.md, check not built yet'
